@@ -74,6 +74,18 @@ def cases(ctx):
     out.append(("blank+B -c ' ' -c B", blank, ["-c", " ", "-c", "B"]))
     out.append(("frag-AB -c B -c A", C.join(fa + [C.TER] + fb + [C.TER]), ["-c", "B", "-c", "A"]))
     out.append(("frag-AB -c A -c A", C.join(fa + [C.TER] + fb + [C.TER]), ["-c", "A", "-c", "A"]))
+    # a chain that ends in an acid: side-chain carboxylate and C-terminus are two groups of one type in one residue
+    from .. import pdbio
+    for resn, upto in (("ASP", 29), ("GLU", 35)):
+        ch = [ln for ln in C.chain_lines("1HPX", "A", 0, 40) if int(ln[22:26]) <= upto]
+        last = [ln for ln in ch if int(ln[22:26]) == upto]
+        o = [pdbio.parse_line(ln) for ln in last if ln[12:16].strip() == "O"]
+        c_ = [pdbio.parse_line(ln) for ln in last if ln[12:16].strip() == "C"]
+        if o and c_ and last[0][17:20] == resn:
+            # OXT opposite to O with respect to C (in the carboxylate plane is not needed for the identity checked here)
+            x, y, z = (2 * c_[0].x - o[0].x + 600, 2 * c_[0].y - o[0].y + 400, 2 * c_[0].z - o[0].z)
+            oxt = pdbio.atom_line("ATOM", 9990, "OXT", " ", resn, "A", upto, " ", x, y, z, elem="O")
+            out.append((f"1HPX-A-ends-in-{resn}{upto}", C.join(ch + [oxt, C.TER]), []))
     # point mutants between conformations: a reported group that exists in some conformations only
     from . import c08
     multi = dict(c08.constructed(ctx))
